@@ -378,6 +378,10 @@ func (c *Conn) Negotiate(s *Script, timeout time.Duration) *Outcome {
 						out.Resumed = true
 					case "resumed-other":
 						c.Send(fmt.Sprintf("<resumed xmlns='%s' previd='%s' h='0'/>", NSSM, "other-"+xmlEsc(e.Attr["previd"])))
+					case "resumed-noid":
+						c.Send(fmt.Sprintf("<resumed xmlns='%s' h='0'/>", NSSM))
+					case "resumed-emptyid":
+						c.Send(fmt.Sprintf("<resumed xmlns='%s' previd='' h='0'/>", NSSM))
 					case "failed":
 						c.Send("<failed xmlns='" + NSSM + "'/>")
 					case "failed-h":
